@@ -9,6 +9,14 @@ Fill(n, v) == [i \in 1..n |-> v]
 UVals == {Zero, FromSmall(23), FromSmall(24), FromSmall(255), FromSmall(256), FromSmall(65535), FromSmall(65536), Sub(Pow2(32), One), Pow2(32), P63, U64Max}
 DefAddr == <<97>> \o Fill(28, 7)                 \* enterprise address, key credential, main net
 DefReward == <<225>> \o Fill(28, 8)              \* reward account, key credential, main net
+\* further address payloads (an output carries ANY address): Byron addresses with no / one / both attributes (frozen bytes with valid
+\* CRC, classified and CRC-checked by the C11 machinery), a pointer address with 10-byte naturals, script and test-net headers
+ByronIcarusMain == <<130, 216, 24, 88, 33, 131, 88, 28, 91, 12, 246, 250, 90, 153, 88, 61, 18, 172, 144, 211, 233, 105, 194, 220, 223, 248, 194, 177, 122, 111, 233, 229, 11, 111, 219, 59, 160, 0, 26, 145, 219, 202, 193>>
+ByronPathMain == <<130, 216, 24, 88, 64, 131, 88, 28, 91, 12, 246, 250, 90, 153, 88, 61, 18, 172, 144, 211, 233, 105, 194, 220, 223, 248, 194, 177, 122, 111, 233, 229, 11, 111, 219, 59, 161, 1, 88, 28, 0, 1, 2, 3, 4, 5, 6, 7, 8, 9, 10, 11, 12, 13, 14, 15, 16, 17, 18, 19, 20, 21, 22, 23, 24, 25, 26, 27, 0, 26, 237, 219, 202, 216>>
+ByronMagicTest == <<130, 216, 24, 88, 40, 131, 88, 28, 81, 77, 23, 145, 13, 82, 244, 179, 29, 42, 7, 127, 37, 178, 177, 137, 157, 37, 32, 45, 182, 196, 101, 167, 74, 198, 196, 129, 161, 2, 69, 26, 65, 112, 203, 23, 0, 26, 182, 120, 126, 22>>
+ByronBothTest == <<130, 216, 24, 88, 71, 131, 88, 28, 81, 77, 23, 145, 13, 82, 244, 179, 29, 42, 7, 127, 37, 178, 177, 137, 157, 37, 32, 45, 182, 196, 101, 167, 74, 198, 196, 129, 162, 1, 88, 28, 0, 1, 2, 3, 4, 5, 6, 7, 8, 9, 10, 11, 12, 13, 14, 15, 16, 17, 18, 19, 20, 21, 22, 23, 24, 25, 26, 27, 2, 69, 26, 65, 112, 203, 23, 0, 26, 6, 180, 232, 122>>
+PtrBig == <<65>> \o Fill(28, 7) \o <<129, 255, 255, 255, 255, 255, 255, 255, 255, 127, 129, 255, 255, 255, 255, 255, 255, 255, 255, 126, 1>>
+AddrVariants == {ByronIcarusMain, ByronPathMain, ByronMagicTest, ByronBothTest, PtrBig, <<16>> \o Fill(28, 7) \o Fill(28, 9), <<0>> \o Fill(28, 7) \o Fill(28, 9), <<112>> \o Fill(28, 7), <<240>> \o Fill(28, 7)}
 RECURSIVE Default(_,_)
 Default(S, s) ==
   CASE s.k = "ref" -> Default(S, S[s.a])
@@ -53,7 +61,7 @@ Variants(S, s) ==
     [] s.k = "nzint" -> {U(v) : v \in UVals \ {Zero}} \cup {NI(v) : v \in {Zero, FromSmall(23), FromSmall(24), Sub(P63, One)}}
     [] s.k = "uintmax" -> {U(Zero), U(FromSmall(s.a))}
     [] s.k = "bool" -> {Sp(244), Sp(245)}
-    [] s.k = "bytes" -> IF s.a = s.b \/ (s.a = 1 /\ s.b = 200) THEN {} ELSE {Bs(Fill(s.a, 5)), Bs(Fill(IF s.b > 66 THEN 66 ELSE s.b, 5))}
+    [] s.k = "bytes" -> IF s.a = 1 /\ s.b = 200 THEN {Bs(a) : a \in AddrVariants} ELSE IF s.a = s.b THEN {} ELSE {Bs(Fill(s.a, 5)), Bs(Fill(IF s.b > 66 THEN 66 ELSE s.b, 5))}
     [] s.k = "text" -> {Tx(Fill(s.a, 98)), Tx(Fill(s.b, 98))}
     [] s.k = "arr" -> {A([i \in 1..n |-> Default(S, s.a[i].t)]) : n \in {m \in 1..Len(s.a) : s.a[m].opt}}
     [] s.k = "list" -> {A([i \in 1..n |-> Default(S, s.a)]) : n \in {m \in 0..2 : m >= s.b}}
